@@ -439,6 +439,7 @@ def _inline_return_temps(fn):
 
 # ----------------------------------------------------------------------------- inlining of freshly extracted helpers
 _PROTECTED: set | None = None
+INLINE_ALWAYS = {"_restart_cancellation_in_parent", "_notify_next_waiter"}
 
 
 def _protected_names() -> set:
@@ -452,7 +453,9 @@ def _protected_names() -> set:
             if fn.endswith(".py"):
                 with open(os.path.join(rd, fn), encoding="utf-8") as fh:
                     names |= set(re.findall(r"[A-Za-z_][A-Za-z_0-9]*", fh.read()))
-        _PROTECTED = names
+        # small helpers whose *inlined* form is the canonical one: the rules speak about what the helper does at its call sites,
+        # so that a maintainer inlining the helper by hand (and deleting it) changes nothing for them
+        _PROTECTED = names - INLINE_ALWAYS
     return _PROTECTED
 
 
@@ -776,7 +779,12 @@ def inline_fresh_helpers(repo: Repo, max_inlines: int = 200) -> list[str]:
                         out.append(s2 if s2.value is not None else ast.copy_location(ast.Return(ast.Constant(None)), s2))
                         continue
                     if isinstance(s2, ast.Return):
-                        if need_res and s2.value is not None:
+                        if need_res and s2.value is not None and shape == "test" and not isinstance(s2.value, ast.Constant):
+                            # the result is only ever tested: `res = <cond>` is written `if <cond>: res = True else: res = False`, so
+                            # that the caller's branch on res carries the facts of <cond> (a "decide" helper returning a bool)
+                            mk = lambda v_: ast.copy_location(ast.Assign(targets=[ast.Name(id=res, ctx=ast.Store())], value=ast.Constant(v_)), s2)
+                            out.append(ast.copy_location(ast.If(test=s2.value, body=[mk(True)], orelse=[mk(False)]), s2))
+                        elif need_res and s2.value is not None:
                             out.append(ast.copy_location(ast.Assign(targets=[ast.Name(id=res, ctx=ast.Store())], value=s2.value), s2))
                         elif s2.value is not None and not isinstance(s2.value, (ast.Name, ast.Constant)):
                             out.append(ast.copy_location(ast.Expr(s2.value), s2))
